@@ -43,7 +43,11 @@ def not_a_message():
     for v in ("1.4", "2.2"):
         gw = Gateway(ScriptedTransport(), Config())
         gw.protocol_version = v
-        for obj in ("1;1;1;0;2;1", None, 5, {"node_id": 1}, object(), [1, 2], b"1;1;1;0;2;1"):
+        import types
+
+        six = {"node_id": 1, "child_id": 1, "command": 1, "ack": 0, "message_type": 2, "payload": "1"}
+        for obj in ("1;1;1;0;2;1", None, 5, {"node_id": 1}, object(), [1, 2], b"1;1;1;0;2;1",
+                    dict(six), types.SimpleNamespace(**six), tuple(six.values()), list(six.items()), type("M", (), six)):
             n += 1
             try:
                 loop.run_until_complete(gw.send(obj))
